@@ -1,9 +1,10 @@
 import Driver.Proto
 import Driver.Tools
+import Driver.GraphCmd
 /-! `vrpdriver`: reads request lines from stdin, writes one reply line each -/
 open Vrp Vrp.Proto Vrp.Drv
 
-def allCmds : List (String × P String) := toolCmds
+def allCmds : List (String × P String) := toolCmds ++ graphCmds
 
 def handle (line : String) : String :=
   let toks := (line.splitOn " ").filter (· ≠ "")
